@@ -97,9 +97,32 @@ func (s *vbStore) visible(key []byte, readTs uint64) *vbEntry {
 	return best
 }
 
+// vbDisk, when set, is the durable store every OpenManaged binds to (a database reopened after a crash);
+// vbCrashAt selects the durable write (a batch flush or a transaction commit, counted from 1) before
+// which the process "dies": the write and everything after it never happens.
+var (
+	vbDisk               *vbStore
+	vbCommits, vbCrashAt int
+	vbCrashed            bool
+)
+
+type vbCrash struct{}
+
+func vbCommitPoint() {
+	vbCommits++
+	if vbCrashAt != 0 && vbCommits == vbCrashAt {
+		vbCrashed = true
+		panic(vbCrash{})
+	}
+}
+
 func vbOpenManaged(badger.Options) (*badger.DB, error) {
 	db := new(badger.DB)
-	vbStores[db] = &vbStore{}
+	if vbDisk != nil {
+		vbStores[db] = vbDisk
+	} else {
+		vbStores[db] = &vbStore{}
+	}
 	return db, nil
 }
 
@@ -163,6 +186,7 @@ func vbTxnDelete(txn *badger.Txn, key []byte) error {
 }
 
 func vbTxnCommitAt(txn *badger.Txn, commitTs uint64, _ func(error)) error {
+	vbCommitPoint()
 	t := vbTxns[txn]
 	for _, w := range t.pending {
 		t.st.apply(w, commitTs)
@@ -247,6 +271,7 @@ func vbBatchDeleteAt(b *badger.WriteBatch, k []byte, ts uint64) error {
 }
 
 func vbBatchFlush(b *badger.WriteBatch) error {
+	vbCommitPoint()
 	x := vbBatches[b]
 	for _, w := range x.pending {
 		x.st.apply(w, x.ts)
